@@ -119,6 +119,9 @@ class Engine:
                     # an assertion it cannot parse and still answer)
                     first = "error"
                 res[name] = (first, out[:2000])
+            if all(v[0] == "empty" for v in res.values()) and not q.get("retried"):
+                q["retried"] = True  # both solvers produced nothing (resource hiccup): once more
+                return run1(q)
             q["answers"] = {k: v[0] for k, v in res.items()}
             q["raw"] = res
             q["wall_s"] = time.time() - t0
